@@ -130,9 +130,12 @@ pub struct World<'a> {
 }
 
 /// TA (key 0) and one CA (key 1) with fixed, wide resources and 2000-2100 validity.
-pub fn world(pool: &Pool) -> World<'_> {
+pub fn world(pool: &Pool) -> World<'_> { world_with(pool, true) }
+
+/// the same with a CA that holds no IPv6 resources at all when `with_v6` is false
+pub fn world_with(pool: &Pool, with_v6: bool) -> World<'_> {
     let v4 = vec![(0x0A00_0000u128, 0x0AFF_FFFFu128), (0xC000_0200, 0xC000_02FF)];
-    let v6 = vec![(0x2001_0db8u128 << 96, (0x2001_0db8u128 << 96) | ((1u128 << 96) - 1))];
+    let v6 = if with_v6 { vec![(0x2001_0db8u128 << 96, (0x2001_0db8u128 << 96) | ((1u128 << 96) - 1))] } else { vec![] };
     let asn = vec![(64496u128, 64511u128), (65536, 65551)];
     let mut ta = pool.spec(0, 0, Kind::Ta);
     ta.not_before = Y2000; ta.not_after = Y2100;
@@ -142,7 +145,7 @@ pub fn world(pool: &Pool) -> World<'_> {
     let mut ca = pool.spec(1, 0, Kind::Ca);
     ca.not_before = Y2000; ca.not_after = Y2100;
     ca.v4 = Res::Blocks(v4.clone());
-    ca.v6 = Res::Blocks(v6.clone());
+    ca.v6 = if v6.is_empty() { Res::Missing } else { Res::Blocks(v6.clone()) };
     ca.asn = Res::Blocks(asn.clone());
     let chain_ders = vec![pool.issue(&ta, 0), pool.issue(&ca, 0)];
     let chain_facts = vec![c01::facts(&ta, true, true, &pool.keys[0].ski), c01::facts(&ca, true, true, &pool.keys[1].ski)];
@@ -202,9 +205,11 @@ fn show_ranges(r: &[(u128, u128)]) -> String {
 pub fn generate(ctx: &mut Ctx) {
     let mut rng = Rng::new(ctx.seed ^ 0xC02);
     let pool = Pool::new(4);
-    let w = world(&pool);
+    let w1 = world(&pool);
+    let w2 = world_with(&pool, false);
     let n = if ctx.tier_thorough { 8000 } else { 1200 };
     for _ in 0..n {
+        let w = if rng.chance(1, 5) { &w2 } else { &w1 };
         let ty = *rng.pick(&["so", "so", "roa", "roa", "aspa", "mft", "sop"]);
         let mut now = T0;
         let mut crl_ok = true;
@@ -250,7 +255,7 @@ pub fn generate(ctx: &mut Ctx) {
                 let r6: Vec<(u128, u128)> = v6.iter().map(|(b, l, _)| prefix_range(128, *b, *l)).collect();
                 match rng.below(8) {
                     0 => { ee.v4 = Res::Inherit; ee.v6 = Res::Inherit; }
-                    1 => { ee.v4 = Res::Blocks(w.v4.clone()); ee.v6 = if r6.is_empty() { Res::Missing } else { Res::Blocks(w.v6.clone()) }; ee.trim = true; }
+                    1 => { ee.v4 = Res::Blocks(w.v4.clone()); ee.v6 = if r6.is_empty() { Res::Missing } else if w.v6.is_empty() { Res::Inherit } else { Res::Blocks(w.v6.clone()) }; ee.trim = true; }
                     2 => {
                         // too little: drop the last address of one family
                         ee.v4 = if r4.len() > 1 { Res::Blocks(r4[..r4.len() - 1].to_vec()) } else if r4.is_empty() { Res::Missing } else { Res::Blocks(vec![(r4[0].0, r4[0].1 - (r4[0].1 > r4[0].0) as u128)]) };
@@ -290,7 +295,7 @@ pub fn generate(ctx: &mut Ctx) {
                 match rng.below(8) {
                     0 => ee.asn = Res::Inherit,
                     1 => { ee.asn = Res::Blocks(vec![(customer as u128, customer as u128)]); ee.v4 = Res::Blocks(vec![(0x0A00_0000, 0x0A00_00FF)]); }
-                    2 => { ee.asn = Res::Blocks(vec![(customer as u128, customer as u128)]); ee.v6 = Res::Inherit; }
+                    2 => { ee.asn = Res::Blocks(vec![(customer as u128, customer as u128)]); if rng.bool() { ee.v6 = Res::Inherit; } else { ee.v4 = Res::Inherit; } }
                     3 => { ee.asn = Res::Blocks(vec![(64500, 64501)]); }
                     _ => { ee.asn = Res::Blocks(vec![(customer as u128, customer as u128)]); }
                 }
@@ -319,7 +324,23 @@ pub fn generate(ctx: &mut Ctx) {
                 // attribute size is driven by the length of the content type OID
                 let arcs = match rng.below(6) { 0 => 0, 1 => rng.range(1, 4), 2 => rng.range(4, 9), 3 => rng.range(30, 40), 4 => rng.range(5, 7), _ => rng.range(0, 60) } as usize;
                 let clen = rng.range(0, 40) as usize;
-                (long_oid(&mut rng, arcs), rng.bytes(clen))
+                let content = rng.bytes(clen);
+                if rng.chance(1, 4) {
+                    // aim at the length-octet boundaries of the signed-attribute value
+                    let target = *rng.pick(&[126usize, 127, 128, 129, 254, 255, 256, 257]);
+                    let mut oid = vec![1u64, 2, 840, 113549, 1, 9, 16, 1];
+                    let mut found = None;
+                    for _ in 0..260 {
+                        let attrs = pki::std_attrs(&oid, &content, Some(T0));
+                        let n: usize = attrs.iter().map(|a| a.len()).sum();
+                        if n == target { found = Some(oid.clone()); break }
+                        if n > target { break }
+                        oid.push(rng.range(1, 127));
+                    }
+                    (found.unwrap_or_else(|| long_oid(&mut rng, arcs)), content)
+                } else {
+                    (long_oid(&mut rng, arcs), content)
+                }
             }
         };
         let st = if rng.chance(1, 8) { 2_600_000_000 } else { T0 - rng.below(100000) as i64 };
